@@ -30,8 +30,11 @@ mod verif_cex_snapshot {
         }
         s
     }
-    fn write_step(db: &DB, r: &mut Rng, model: &mut Snap, step: u32) {
+    // one write transaction; with probability 1/3 a reader is opened WHILE the writer is still open (it must see, and keep
+    // seeing, the state committed before this writer)
+    fn write_step<'d>(db: &'d DB, r: &mut Rng, model: &mut Snap, step: u32) -> Option<(Tx<'d>, Snap)> {
         let tx = db.tx(true).unwrap();
+        let mut mid: Option<(Tx<'d>, Snap)> = None;
         {
             let bn = format!("b{}", r.below(3)).into_bytes();
             let b = tx.get_or_create_bucket(bn.clone()).unwrap();
@@ -43,7 +46,9 @@ mod verif_cex_snapshot {
                 else { let v = vec![b'a' + (step % 26) as u8; [8usize, 120, 700, 2500][r.below(4) as usize]]; b.put(k.clone(), v.clone()).unwrap(); m.insert(k, v); }
             }
         }
+        if r.below(3) == 0 { let t = db.tx(false).unwrap(); let s = read_all(&t); mid = Some((t, s)); }
         if r.below(6) == 0 { drop(tx); *model = { let t = db.tx(false).unwrap(); read_all(&t) }; } else { tx.commit().unwrap(); }
+        mid
     }
 
     fn run_seed(seed: u64) -> Result<(), String> {
@@ -59,7 +64,15 @@ mod verif_cex_snapshot {
                 match r.below(10) {
                     0 | 1 | 2 if readers.len() < 5 => { let t = db.tx(false).unwrap(); let s = read_all(&t); if s != model { return Err(format!("seed {} step {}: a reader opened after the commits sees a state that is not the newest committed one; steps: {}", seed, step, log.join(" "))); } readers.push((step, t, s)); log.push(format!("OPEN#{}", step)); }
                     3 | 4 if !readers.is_empty() => { let i = r.below(readers.len() as u64) as usize; let (id, t, _) = readers.remove(i); drop(t); log.push(format!("CLOSE#{}", id)); }
-                    _ => { write_step(&db, &mut r, &mut model, step); log.push("WRITE".into()); }
+                    _ => {
+                        let committed_before = { let t = db.tx(false).unwrap(); read_all(&t) };
+                        let mid = write_step(&db, &mut r, &mut model, step);
+                        log.push("WRITE".into());
+                        if let Some((t, s)) = mid {
+                            if s != committed_before { return Err(format!("seed {} step {}: a reader opened while a writer was open does not see the state committed before that writer; steps: {}", seed, step, log.join(" "))); }
+                            if readers.len() < 5 { readers.push((step, t, s)); log.push(format!("OPENED-DURING-WRITE#{}", step)); }
+                        }
+                    }
                 }
                 for (id, t, s) in &readers {
                     let now = std::panic::catch_unwind(std::panic::AssertUnwindSafe(|| read_all(t)));
